@@ -87,6 +87,10 @@ class MetaConcurrent(type):
                 # the base class is the superclass of all its specialisations
                 if cls.specialisations is None:
                     return True
+                # issubclass(A, A[???])
+                # the base class is more general than any of its specialisations
+                elif subclass.specialisations is None:
+                    return False
                 # except MultiError[]:
                 # issubclass(A[???], A[???])
                 else:
